@@ -30,15 +30,17 @@ K_SUBSTR = "replicate:ref-to-replicated-producer-is-substring-of-other-ref"
 K_STAGE = "replicate:same-name-in-other-stage-as-replicated-producer"
 K_DIGIT = "replicate:replicated-producers-named-X-and-Xdigit"
 K_TAIL2 = "replicate:aggregator-mentions-replicated-ref-with-two-paths"
+K_OVR = "replicate:aggregate-with-platform-override-of-references"
 
 
 def S(names, stages=(0,), reps=("none", "n2"), aggs=(True, False), spell=("rel", "abs"), paths=("",), methods=("ref",),
       styles=("same",), orders=("fwd",), comps=3, refs=2, fixed=False, graph=1, priv=(0,), aggvar=(False,), sv0=(0,), sv1=(2,), same=1,
-      plat=(0,), pg=(0,), ps0=(0,), ps1=(0,)):
+      plat=(0,), pg=(0,), ps0=(0,), ps1=(0,), ovr=False):
+    """ovr: every consumer also carries a platform override that repeats its references / arguments (same meaning)"""
     """graph: 1 = every case also through graphFromFlowIR, k = every k-th case"""
     return dict(names=names, stages=stages, reps=reps, aggs=aggs, spell=spell, paths=paths, methods=methods, styles=styles,
                 orders=orders, comps=comps, refs=refs, fixed=fixed, graph=graph, priv=priv, aggvar=aggvar, sv0=sv0, sv1=sv1, same=same,
-                plat=plat, pg=pg, ps0=ps0, ps1=ps1)
+                plat=plat, pg=pg, ps0=ps0, ps1=ps1, ovr=ovr)
 
 
 SLICES = {
@@ -56,6 +58,9 @@ SLICES = {
         # document holds the other platform's definitions also when the default platform is loaded)
         "platform": S(["p", "q"], stages=(0, 1), reps=("none", "vg", "vs"), spell=("abs",), comps=2, refs=1, fixed=True,
                       aggvar=(False, True), sv0=(0, 2), sv1=(0, 2), plat=(0, 1), pg=(0, 3), ps0=(0, 1), ps1=(0,), graph=4),
+        # the same with a platform override that repeats the references / arguments of every consumer
+        "override": S(["p", "q", "r"], stages=(0, 1), reps=("none", "n2"), spell=("rel", "abs"), refs=2, fixed=True,
+                      plat=(0, 1), ovr=True, graph=8),
         "scopes": S(["p", "q"], stages=(0, 1), reps=("none", "vg", "vs", "vc"), spell=("abs",), comps=2, refs=1, fixed=True,
                     priv=(0, 1), aggvar=(False, True), sv0=(0, 1), sv1=(0, 2), orders=("fwd", "rev"), graph=8),
         "scopes3": S(["p", "q", "r"], stages=(0,), reps=("none", "vg", "vs"), aggs=(False,), spell=("rel",), refs=1, fixed=True,
@@ -95,6 +100,8 @@ SLICES = {
         "refs3": S(["a", "ba", "c"], paths=("", "out.txt"), styles=("same", "tail"), spell=("rel",), graph=16),
         "platform": S(["p", "q"], stages=(0, 1), reps=("none", "vg", "vs", "vc"), spell=("abs",), comps=2, refs=1, fixed=True,
                       aggvar=(False, True), sv0=(0, 2), sv1=(0, 2), plat=(0, 1), pg=(0, 1, 3), ps0=(0, 1), ps1=(0, 3), graph=8),
+        "override": S(["p", "q", "r"], stages=(0, 1), reps=("none", "n2", "n3"), spell=("rel", "abs"), refs=2, fixed=True,
+                      plat=(0, 1), ovr=True, graph=8),
         "platform3": S(["p", "q", "r"], stages=(0, 1), reps=("none", "vs"), spell=("abs",), refs=1, fixed=True,
                        sv0=(0, 2), sv1=(0,), plat=(0, 1), pg=(0, 3), ps0=(0, 1), ps1=(0,), graph=8),
         "scopes": S(["p", "q"], stages=(0, 1), reps=("none", "n2", "vg", "vs", "vc"), spell=("abs",), comps=2, refs=1, fixed=True,
@@ -183,6 +190,8 @@ def classify(case):
     for k in (K_STAGE, K_SUBSTR, K_DIGIT, K_TAIL2):
         if k in found:
             return k
+    if case.get("ovr") and any(c["g"] and any(r[0] in replicated for r in c["r"]) for c in comps):
+        return K_OVR
     feats = []
     if any(c["s"] == 1 for c in comps):
         feats.append("stages")
@@ -280,13 +289,15 @@ def _show(t):
 
 
 def case_id(case):
-    return json.dumps([case["comps"], case["order"], case.get("sv")], sort_keys=True)
+    return json.dumps([case["comps"], case["order"], case.get("sv"), bool(case.get("ovr"))], sort_keys=True)
 
 
-def check_cases(chk, cases, graph_every, procs, label=""):
+def check_cases(chk, cases, graph_every, procs, label="", ovr=False):
     """Execute cases on the real code (both paths) and compare with the spec."""
     work = []
     for i, case in enumerate(cases):
+        if ovr:
+            case["ovr"] = True
         paths = ("concrete", "graph") if (graph_every and i % graph_every == 0) or case["status"] != "ok" else ("concrete",)
         work.append((case, paths))
     results = wf_io.pool_map(wf_io.exec_case, work, procs)
@@ -370,7 +381,7 @@ def run(tier):
         chk.add_tlc(r)
         total += len(cases)
         t1 = time.time()
-        check_cases(chk, cases, sl["graph"], procs, label=name)
+        check_cases(chk, cases, sl["graph"], procs, label=name, ovr=sl["ovr"])
         chk.cov.setdefault("phases_s", {})[name] = {"tlc_emit": r["wall_s"], "cases": len(cases), "execute": round(time.time() - t1, 1)}
     threads[0].join()
     if errors:
